@@ -1,6 +1,7 @@
 import Proofs.KeysTotal
 import Proofs.KeysPem
 import Proofs.KeysInst
+import Proofs.KeysInstPub
 /-!
 # C10 — decoders of external data fail only with their documented exceptions (key loaders)
 
@@ -84,6 +85,29 @@ theorem vk_loaders_total_model (hprime : ∀ c ∈ Gen.curveTable, c.p.Prime) (b
     exact sqrtSpec_modelExt c.p (hprime c hc) (by omega)
   exact ⟨fun e h => vk_fromDer_err _ hsq bs e h, fun e h => vk_fromPem_err _ hsq bs e h,
     fun c hc v e h => fromString_err _ c (hprime c hc).pos (hsq c hc) bs v e h⟩
+
+/-- **all six loaders on the composed model**, hypotheses: only `p` and `n` prime for the curves of the table (`ExtOK`
+is discharged: square root by C15, `d·G` by C07 with the base-point order checked by the kernel) -/
+theorem all_loaders_total_model (hprime : ∀ c ∈ Gen.curveTable, c.p.Prime ∧ c.n.Prime) :
+    ExtOK KeysWire.modelExt ∧ ∀ bs : Bytes,
+      (∀ e, VK.fromDer KeysWire.modelExt bs = .error e → Documented e) ∧
+      (∀ e, VK.fromPem KeysWire.modelExt bs = .error e → Documented e) ∧
+      (∀ e, SK.fromDer KeysWire.modelExt bs = .error e → Documented e) ∧
+      (∀ e, SK.fromPem KeysWire.modelExt bs = .error e → Documented e) ∧
+      (∀ c ∈ Gen.curveTable, ∀ v e, VK.fromString KeysWire.modelExt c bs v = .error e → e = .malformedPoint) ∧
+      (∀ c ∈ Gen.curveTable, ∀ e, SK.fromString KeysWire.modelExt c bs = .error e → e = .malformedPoint) := by
+  have hsq : ∀ c ∈ Gen.curveTable, SqrtSpec KeysWire.modelExt.sqrtModP c.p := by
+    intro c hc
+    have hodd := table_p_odd _ hc
+    exact sqrtSpec_modelExt c.p (hprime c hc).1 (by omega)
+  have hpub : ∀ c ∈ Gen.curveTable, PubSpec KeysWire.modelExt c := by
+    intro c hc
+    haveI := Fact.mk (hprime c hc).1
+    exact pubSpec_model c hc (hprime c hc).2
+  refine ⟨⟨hsq, hpub⟩, fun bs => ⟨fun e h => vk_fromDer_err _ hsq bs e h, fun e h => vk_fromPem_err _ hsq bs e h,
+    fun e h => sk_fromDer_err _ hpub bs e h, fun e h => sk_fromPem_err _ hpub bs e h,
+    fun c hc v e h => fromString_err _ c (hprime c hc).1.pos (hsq c hc) bs v e h,
+    fun c hc e h => sk_fromString_err _ c (hpub c hc) bs e h⟩⟩
 
 /-- in particular none of the internal exception classes escapes any of the six loaders -/
 theorem no_internal_exception (E : Ext) (hE : ExtOK E) (bs : Bytes) (e : PyErr)
